@@ -353,6 +353,7 @@ class Configuration(_Configuration):
 
         self._neighbors: dict[str, Any] = {}
         self._previous_neighbors: dict[str, Any] = {}
+        self._previous_processes: dict[str, Any] | None = None
 
     @classmethod
     def from_settings(cls, settings: 'ConfigurationSettings') -> 'Configuration':
@@ -485,6 +486,7 @@ class Configuration(_Configuration):
         return self.parser.tokeniser
 
     def _clear(self) -> None:
+        self._previous_processes = self.processes
         self.processes = {}
         self._previous_neighbors = self.neighbors
         self.neighbors = {}
@@ -544,21 +546,30 @@ class Configuration(_Configuration):
 
     def reload(self) -> bool:
         try:
-            return self._reload()
+            result = self._reload()
         except KeyboardInterrupt:
-            return self.error.set('configuration reload aborted by ^C or SIGINT')
+            result = self.error.set('configuration reload aborted by ^C or SIGINT')
         except Error as exc:
             if getenv().debug.configuration:
                 raise
-            return self.error.set(
+            result = self.error.set(
                 f'problem parsing configuration file line {self.parser.index_line}\nerror message: {exc}',
             )
         except Exception as exc:
             if getenv().debug.configuration:
                 raise
-            return self.error.set(
+            result = self.error.set(
                 f'problem parsing configuration file line {self.parser.index_line}\nerror message: {exc}',
             )
+        if result is not True and self._previous_neighbors:
+            # the reload failed after the running configuration was set aside (unreadable file, exception
+            # while parsing): put it back, a failed reload must leave everything as it was
+            self._rollback_reload()
+        if result is not True and self._previous_processes is not None:
+            # ... including the API processes: the reactor (re)starts what self.processes lists after a reload
+            self.processes = self._previous_processes
+        self._previous_processes = None
+        return result
 
     def _reload(self) -> bool:
         # If created via from_settings(), no configurations to reload
@@ -571,6 +582,8 @@ class Configuration(_Configuration):
         self._configurations.append(fname)
 
         # clearing the current configuration to be able to re-parse it
+        # (and what a previous, failed, reload may have left in the parsers: partial() does the same)
+        self._cleanup()
         self._clear()
 
         if self._text:
